@@ -27,6 +27,8 @@ pub struct RecDest {
     pub calls: Vec<Call>,
     /// 0-based index of the call that fails (None: never)
     pub fail_at: Option<usize>,
+    /// 0-based index of the call that panics (a caller's destination may: the dump then unwinds)
+    pub panic_at: Option<usize>,
     /// (call index, bytes accepted, full afterwards): if that call is a write of more than `bytes`, only `bytes` are taken
     /// (a short write); with `full afterwards` every later write that would grow the destination fails (disk full)
     pub short_at: Option<(usize, usize, bool)>,
@@ -54,6 +56,7 @@ impl RecDest {
             pre_len,
             calls: Vec::new(),
             fail_at: None,
+            panic_at: None,
             short_at: None,
             full: false,
             ncalls: 0,
@@ -62,6 +65,10 @@ impl RecDest {
     fn gate(&mut self, what: &'static str) -> Result<()> {
         let k = self.ncalls;
         self.ncalls += 1;
+        if self.panic_at == Some(k) {
+            self.calls.push(Call::Failed { what });
+            panic!("injected destination panic");
+        }
         if self.fail_at == Some(k) {
             self.calls.push(Call::Failed { what });
             return Err(Error::new(ErrorKind::Other, "injected destination failure"));
